@@ -6,9 +6,9 @@ import vcheck as V
 GEN = os.path.join(V.SPEC, 'avoid', 'RouteGen.tla')
 
 
-def gen_scenes(d, cmax, maxr, gap, tag='gen'):
+def gen_scenes(d, cmax, maxr, gap, tag='gen', poly=False):
     cfg = os.path.join(d, tag + '.cfg')
-    open(cfg, 'w').write('SPECIFICATION Spec\nCONSTANTS\n CMAX = %d\n MAXR = %d\n GAP = %d\nCHECK_DEADLOCK FALSE\n' % (cmax, maxr, gap))
+    open(cfg, 'w').write('SPECIFICATION Spec\nCONSTANTS\n CMAX = %d\n MAXR = %d\n GAP = %d\n POLY = %s\nCHECK_DEADLOCK FALSE\n' % (cmax, maxr, gap, 'TRUE' if poly else 'FALSE'))
     out = os.path.join(d, tag + '.json')
     V.tlc(GEN, cfg, env={'ROUTEGEN': out}, workers=1, timeout=1500, mem='12g')
     return json.load(open(out))
@@ -59,3 +59,13 @@ def poly_rect(sh):
     xs = [p[0] for p in sh]
     ys = [p[1] for p in sh]
     return [min(xs), min(ys), max(xs), max(ys)]
+
+
+def in_closed_convex(p, poly):
+    """p inside or on the boundary of a positively wound convex polygon"""
+    n = len(poly)
+    for i in range(n):
+        a, b = poly[i - 1], poly[i]
+        if (b[0] - a[0]) * (p[1] - a[1]) - (b[1] - a[1]) * (p[0] - a[0]) < 0:
+            return False
+    return True
